@@ -52,6 +52,9 @@ type Case struct {
 	// Defaults: the package-level defaults are assigned by the goroutine that
 	// starts the others, before any call of the workload (and put back after it).
 	Defaults *PkgDefaults `json:"package_defaults,omitempty"`
+	// Kind "together": every goroutine starts with the same expensive call (deeply
+	// nested or large arguments), so that many of them are inside it at the same moment.
+	Kind string `json:"kind,omitempty"`
 }
 
 type PkgDefaults struct {
@@ -109,6 +112,70 @@ func draw(pkg string) func(*rapid.T) Case {
 					cl = common[gen.Uniform(t, 0, nc-1, "ci")]
 				}
 				th = append(th, Step{Call: cl, Private: gen.OneIn(t, 6, "private"), Yield: gen.OneIn(t, 4, "yield")})
+			}
+			c.Threads = append(c.Threads, th)
+		}
+		return c
+	}
+}
+
+// drawTogether: workloads whose goroutines are all inside the same long-running call
+// at the same moment - deep recursions side by side (1 000-3 500 levels each, far more
+// than 10 000 in total), large texts validated side by side - with nothing but the
+// argument buffers in common. Whatever a call keeps per process rather than per call
+// (a depth or size budget, a scratch buffer, a helper goroutine) shows here.
+func drawTogether(pkg string) func(*rapid.T) Case {
+	return func(t *rapid.T) Case {
+		d := rapid.SampledFrom([]int{1000, 1500, 2500, 3500}).Draw(t, "depth")
+		dm := rapid.SampledFrom([]int{200, 400, 700}).Draw(t, "mergedepth")
+		key := rapid.SampledFrom([]string{"a", "k", "\\u0061b"}).Draw(t, "key")
+		nest := func(leaf string, n int) calls.Text {
+			return calls.Text(strings.Repeat(`{"`+key+`":`, n) + leaf + strings.Repeat("}", n))
+		}
+		big := func(n int, tail string) calls.Text {
+			var sb strings.Builder
+			sb.WriteString(`{"x":[`)
+			for i := 0; sb.Len() < n; i++ {
+				fmt.Fprintf(&sb, `{"n":%d,"s":"v%d"},`, i, i%7)
+			}
+			sb.WriteString(`null]` + tail)
+			return calls.Text(sb.String())
+		}
+		kb := rapid.SampledFrom([]int{33, 40, 70, 120}).Draw(t, "kb") * 1024
+		c := Case{Pkg: pkg, Kind: "together", Rounds: gen.Uniform(t, 1, 2, "rounds"),
+			Procs: rapid.SampledFrom([]int{4, 16, 16, 16}).Draw(t, "procs"),
+			Bufs: []calls.Text{
+				0: nest("1", d), 1: nest(`{"z":2}`, d), 2: nest("null", d-gen.Uniform(t, 0, 3, "short")),
+				3: calls.Text(`[{"op":"add","path":"/zz","value":[1,{"q":null}]},{"op":"test","path":"/zz/0","value":1}]`),
+				4: calls.Text(`{"d":` + strings.Repeat("[", d) + "1" + strings.Repeat("]", d) + `,"e":1}`),
+				5: big(kb, "}"), 6: big(kb+kb/2, `,"y":{"t":true}}`), 7: big(kb, `,"y":}`), 8: big(kb+4096, ""),
+				// the merge functions are quadratic in the nesting depth (0.8 s at 3 500 levels, ten times
+				// that under the race detector): they get their own, shallower, arguments
+				9: nest("1", dm), 10: nest(`{"z":2}`, dm), 11: nest("null", dm-1),
+			}}
+		type ab struct {
+			fn   string
+			a, b int
+		}
+		menu := []ab{
+			{calls.FCreate, 0, 1}, {calls.FCreate, 1, 0}, {calls.FCreate, 0, 2}, {calls.FMerge, 9, 10}, {calls.FMerge, 10, 11}, {calls.FMergeMerge, 10, 11},
+			{calls.FApply, 0, 3}, {calls.FApply, 4, 3}, {calls.FCreate, 4, 0},
+			{calls.FCreate, 5, 6}, {calls.FMerge, 6, 5}, {calls.FEqual, 5, 6}, {calls.FEqual, 6, 6}, {calls.FEqual, 6, 7}, {calls.FEqual, 5, 8}, {calls.FEqual, 7, 6},
+			{calls.FCreate, 6, 7}, {calls.FMerge, 5, 8}, {calls.FApply, 6, 3}, {calls.FApplyIndent, 5, 3},
+		}
+		mk := func(m ab, l string) Step {
+			cl := calls.Call{Fn: m.fn, A: m.a, B: m.b}
+			if m.fn == calls.FApplyIndent {
+				cl.Indent = " "
+			}
+			return Step{Call: cl, Private: gen.OneIn(t, 3, l+"private")}
+		}
+		first := menu[gen.Uniform(t, 0, len(menu)-1, "first")]
+		n := rapid.SampledFrom([]int{6, 8, 12, 16}).Draw(t, "ngoroutines")
+		for g := 0; g < n; g++ {
+			th := []Step{mk(first, "f")}
+			for k := gen.Uniform(t, 0, 1, "nmore"); k > 0; k-- {
+				th = append(th, mk(menu[gen.Uniform(t, 0, len(menu)-1, "mi")], "m"))
 			}
 			c.Threads = append(c.Threads, th)
 		}
@@ -258,6 +325,15 @@ func concurrentMode(api calls.API, c Case, bufs []*calls.Buf, shared map[int]*sh
 						}
 					}
 					got := calls.Exec(api, st.Call, a, b, p, perr, use)
+					if st.Private && !st.NeedsPatch() {
+						// the call has returned: the arguments are the caller's again, and a caller may
+						// write to its own buffers (here: the same bytes once more). A library goroutine
+						// still reading them is a race with a legal caller.
+						copy(a, c.Bufs[st.A])
+						if st.B != st.A {
+							copy(b, c.Bufs[st.B])
+						}
+					}
 					if exp := want[st.Sig(c.Bufs)]; !calls.Same(exp, got, st.ByValue()) {
 						errs[g] = fmt.Sprintf("goroutine %d round %d step %d (%s, private=%v): concurrent result differs from the result of the same call run alone\n concurrent: %s\n alone: %s", g, r, i, st.Fn, st.Private, got, exp)
 						return
@@ -523,6 +599,17 @@ func check(c Case) ev.Verdict {
 		}
 	}
 	v := ev.Verdict{NonTrivial: sharedApply && overlap >= 3}
+	if c.Kind == "together" {
+		// non-trivial: at least six goroutines start with the same call
+		same := 0
+		for _, th := range c.Threads {
+			if len(th) > 0 && th[0].Fn == c.Threads[0][0].Fn && th[0].A == c.Threads[0][0].A && th[0].B == c.Threads[0][0].B {
+				same++
+			}
+		}
+		v.NonTrivial = same >= 6
+		v.Classes = append(v.Classes, "first-call="+c.Threads[0][0].Fn, fmt.Sprintf("first-call-argument-bytes=%dk", (len(c.Bufs[c.Threads[0][0].A])+len(c.Bufs[c.Threads[0][0].B]))/2048*2))
+	}
 	v.Classes = []string{fmt.Sprintf("goroutines=%d", len(c.Threads)), fmt.Sprintf("gomaxprocs=%d", c.Procs), fmt.Sprintf("rounds=%d", c.Rounds),
 		fmt.Sprintf("calls-per-round=%d", 20*(ncalls/20)), fmt.Sprintf("functions-overlapping=%d", overlap)}
 	if sharedApply {
@@ -542,8 +629,17 @@ const rule = "workload = pool of 4-11 shared buffers (as C09) x 2/4/8/16 gorouti
 var unitV5 = ev.Unit[Case]{Name: "workload-v5", Rule: rule, Draw: draw("v5"), Check: check, Guard: true}
 var unitLegacy = ev.Unit[Case]{Name: "workload-legacy", Rule: rule, Draw: draw("legacy"), Check: check, Guard: true}
 
+const ruleTogether = "workload = 6/8/12/16 goroutines behind a start barrier that all begin with the same long-running call and then make 0-1 more from the same menu, 1-2 rounds, GOMAXPROCS 4/16, 1 call in 3 on private copies that the goroutine writes to again as soon as the call has returned; arguments: objects nested 1 000-3 500 levels (two leaves, one a null, one a level or three shorter; 200-700 levels for the merge functions, which are quadratic in depth), an array nested as deep, texts of 33-180 KiB (well-formed, with a member more, ill-formed near the end, truncated); calls: CreateMergePatch, MergePatch, MergeMergePatches, Apply, ApplyIndent and Equal over them (Equal only on the large texts: it is quadratic in depth); oracle as for the other workloads (race reports, equality with the result of the call run alone, inputs unchanged); non-trivial = at least six goroutines start with the same call; distinct = distinct serialised workload"
+
+var unitTogetherV5 = ev.Unit[Case]{Name: "together-v5", Rule: ruleTogether, Draw: drawTogether("v5"), Check: check, Guard: true}
+var unitTogetherLegacy = ev.Unit[Case]{Name: "together-legacy", Rule: ruleTogether, Draw: drawTogether("legacy"), Check: check, Guard: true}
+
+func TestPropTogether(t *testing.T)       { ev.RunProp(t, "C10", unitTogetherV5) }
+func TestPropTogetherLegacy(t *testing.T) { ev.RunProp(t, "C10", unitTogetherLegacy) }
+
 func TestProp(t *testing.T)       { ev.RunProp(t, "C10", unitV5) }
 func TestPropLegacy(t *testing.T) { ev.RunProp(t, "C10", unitLegacy) }
 func TestReplay(t *testing.T) {
-	ev.Replay(t, map[string]ev.Replayer{unitV5.Name: unitV5.Replayer(), unitLegacy.Name: unitLegacy.Replayer()})
+	ev.Replay(t, map[string]ev.Replayer{unitV5.Name: unitV5.Replayer(), unitLegacy.Name: unitLegacy.Replayer(),
+		unitTogetherV5.Name: unitTogetherV5.Replayer(), unitTogetherLegacy.Name: unitTogetherLegacy.Replayer()})
 }
